@@ -40,7 +40,7 @@ Profile profile_for(const std::string &c) {
         set(p.w_script, {{LIFE, 10}, {MSG, 12}, {SRC, 10}, {ENV, 12}, {CTX, 12}, {ERRNO, 22}, {SUBS, 4}});
         p.mod_flag_bits = 1; p.src_kinds = 127; p.src_flag_bits = 1 | 2 | 4; p.sub_flag_bits = 1 | 2 | 4 | 16 | 32;   // (low/high priority subscriptions too: a parked low-priority message still belongs to its owner, with its user data)
     } else if (c == "C04") {
-        set(p.w_driver, {{LIFE, 16}, {MSG, 16}, {SUBS, 10}, {SRC, 18}, {ENV, 12}, {BATCH, 3}, {TB, 1}, {CTX, 4}, {REF, 8}, {QUERY, 5}, {REG, 8}, {BURST, 1}, {SETEVAL, 2}});
+        set(p.w_driver, {{LIFE, 16}, {MSG, 16}, {SUBS, 10}, {SRC, 18}, {ENV, 12}, {BATCH, 3}, {TB, 1}, {CTX, 4}, {REF, 8}, {QUERY, 5}, {REG, 8}, {BURST, 1}, {SETEVAL, 2}, {STASH, 4}});   // (unstash from outside any delivery too)
         set(p.w_script, {{LIFE, 18}, {MSG, 16}, {SUBS, 10}, {SRC, 12}, {ENV, 6}, {STASH, 8}, {BECOME, 4}, {BATCH, 3}, {CTX, 8}, {REF, 12}, {ERRNO, 2}, {QUERY, 4}, {REG, 5}, {BURST, 1}});
         p.mod_flag_bits = 1 | 2 | 8; p.src_kinds = 127; p.src_flag_bits = 1 | 2 | 4 | 8; p.sub_flag_bits = 1 | 2 | 4 | 16 | 32; p.sys_topics = true; p.max_mods = 5;
     } else if (c == "C07") {
@@ -227,7 +227,12 @@ struct Gen {
                 // bias: the subscription the stashed message may have come through is renewed in place (its user data changes) before the unstash
                 if (!remembered_subs.empty() && r.chance(0.25)) { auto &rs = remembered_subs[r.below(remembered_subs.size())]; p.add(where, "sub", {rs[0], rs[1], rs[2]}); }
             }
-            else p.add(where, "unstash", {rmod(), r.chance(0.15) ? -1 : (long)r.range(1, 5)});
+            else {
+                long target = rmod();
+                // C04 bias: the handler that is handed the unstashed events ends by deregistering its module (with the program's last reference, if it keeps none)
+                if (camp == "C04" && !in_cb && r.chance(0.5)) p.add(where, "arm_dereg", {target});
+                p.add(where, "unstash", {target, r.chance(0.15) ? -1 : (long)r.range(1, 5)});
+            }
             break;
         case BECOME:
             if (r.chance(0.6)) p.add(where, "become", {rmod(), (long)r.below(3)});
@@ -309,7 +314,7 @@ Program gen_core(const std::string &campaign, uint64_t seed, bool thorough) {
     p.setd("eintr_p", g.pf.eintr && r.chance(0.25) ? (r.chance(0.5) ? 0.05 : 0.3) : 0.0);
     p.set("max_waits", (long)r.range(12, thorough ? 160 : 60));
     p.set("teardown", (long)r.below(2));
-    p.set("keeprefs", r.chance(campaign == "C04" || campaign == "C20" ? 0.5 : 1.0) ? 1 : 0);
+    p.set("keeprefs", r.chance(campaign == "C04" || campaign == "C20" ? 0.5 : campaign == "C02" ? 0.7 : 1.0) ? 1 : 0);   // (without them a deregistered module lives only as long as the library needs it - e.g. as the sender of a message in flight)
     p.set("nufd", 3);
     // avoid(known finding C09: one descriptor cannot be polled for two modules of a context; two auto-closing owners would also be the
     // program's own double close): every module registers private descriptors only
